@@ -427,14 +427,25 @@ pub fn run_startup(ctx: &Ctx) {
 // ---------------------------------------------------------------------------------------------
 // C18: concurrent closed-loop clients against a multi-worker server
 
-fn workers_round(out: &mut Out, r: &mut Rng, nworkers: usize, nclients: usize, per_client: usize) {
+fn workers_round(out: &mut Out, r: &mut Rng, nworkers: usize, nclients: usize, per_client: usize, batch: u8, burst: bool) {
     if !out.mine() {
         out.skip();
         return;
     }
+    // a burst must fit the kernel's default receive buffer of a worker socket (about 90 datagrams of
+    // 1 KiB; the kernel spreads sockets over workers unevenly): keep at most 72 per worker in flight, or
+    // the kernel — not the server — drops requests
+    let (nclients, per_client) = if burst {
+        let cap = 72 * nworkers;
+        let nc = nclients.min(cap);
+        (nc, (cap / nc).clamp(1, per_client))
+    } else {
+        (nclients, per_client)
+    };
     let seed = r.bytes(32);
-    let cfg = ProcCfg::basic(seed.clone(), nworkers);
-    let desc = format!("seed={},workers={},clients={},reqs={}", hex(&seed), nworkers, nclients, per_client);
+    let mut cfg = ProcCfg::basic(seed.clone(), nworkers);
+    cfg.batch = Some(batch);
+    let desc = format!("seed={},workers={},clients={},reqs={},batch={},burst={}", hex(&seed), nworkers, nclients, per_client, batch, if burst { 1 } else { 0 });
     let mut sp = match ServerProc::start(&cfg) {
         Ok(s) => s,
         Err(e) => { out.case("mw", &[&desc, "-"], &format!("started=0 err={}", e.replace(' ', "_"))); return; }
@@ -460,12 +471,28 @@ fn workers_round(out: &mut Out, r: &mut Rng, nworkers: usize, nclients: usize, p
                         None => extra.push(reply),
                     }
                 };
-                for _ in 0..per_client {
-                    let req = if rr.chance(1, 2) { classic_request(&rr.bytes(64), 1024) } else { ietf_request(&VER13, None, &rr.bytes(32), 1024 + 4 * rr.below(20) as usize) };
-                    sock.send_to(&req, addr).unwrap();
-                    pairs.push((req, vec![]));
-                    if let Ok((n, _)) = sock.recv_from(&mut buf) {
-                        attribute(&mut pairs, &mut extra, buf[..n].to_vec());
+                if burst {
+                    // fire everything at once, then collect: many datagrams queued behind one readiness event
+                    for _ in 0..per_client {
+                        let req = if rr.chance(1, 2) { classic_request(&rr.bytes(64), 1024) } else { ietf_request(&VER13, None, &rr.bytes(32), 1024 + 4 * rr.below(20) as usize) };
+                        sock.send_to(&req, addr).unwrap();
+                        pairs.push((req, vec![]));
+                    }
+                    for _ in 0..per_client {
+                        if let Ok((n, _)) = sock.recv_from(&mut buf) {
+                            attribute(&mut pairs, &mut extra, buf[..n].to_vec());
+                        } else {
+                            break;
+                        }
+                    }
+                } else {
+                    for _ in 0..per_client {
+                        let req = if rr.chance(1, 2) { classic_request(&rr.bytes(64), 1024) } else { ietf_request(&VER13, None, &rr.bytes(32), 1024 + 4 * rr.below(20) as usize) };
+                        sock.send_to(&req, addr).unwrap();
+                        pairs.push((req, vec![]));
+                        if let Ok((n, _)) = sock.recv_from(&mut buf) {
+                            attribute(&mut pairs, &mut extra, buf[..n].to_vec());
+                        }
                     }
                 }
                 // late replies
@@ -507,12 +534,20 @@ fn workers_round(out: &mut Out, r: &mut Rng, nworkers: usize, nclients: usize, p
 pub fn run_workers(ctx: &Ctx) {
     let mut out = Out::sharded(ctx.shard);
     let mut r = Rng::new(ctx.seed ^ 0xC18);
-    let counts: Vec<usize> = if ctx.thorough { vec![1, 2, 4, 8, 16] } else { vec![2, 16] };
-    let rounds = if ctx.thorough { 30 } else { 3 };
+    let counts: Vec<usize> = if ctx.thorough { vec![1, 2, 4, 8, 16] } else { vec![1, 2, 16] };
+    let rounds = if ctx.thorough { 30 } else { 5 };
     for &w in &counts {
         for k in 0..rounds {
-            let nclients = match k % 3 { 0 => 64, 1 => r.range(1, 16) as usize, _ => r.range(16, 64) as usize };
-            workers_round(&mut out, &mut r, w, nclients, if ctx.thorough { 12 } else { 8 });
+            // batch_size and arrival pattern vary: small batches with everything fired at once queue far
+            // more than one call's worth (16 batches) of datagrams on a worker
+            let (nclients, batch, burst) = match k % 5 {
+                0 => (64usize, 64u8, false),
+                1 => (64, 1, true),
+                2 => (48, 2, true),
+                3 => (r.range(16, 64) as usize, 63, false),
+                _ => (r.range(1, 16) as usize, 1, false),
+            };
+            workers_round(&mut out, &mut r, w, nclients, if ctx.thorough { 12 } else { 8 }, batch, burst);
         }
     }
     out.flush();
@@ -689,22 +724,26 @@ pub fn run_client_real(ctx: &Ctx) {
 pub fn run_procleak(ctx: &Ctx) {
     let mut out = Out::sharded(ctx.shard);
     let mut r = Rng::new(ctx.seed ^ 0xC20);
-    for k in 0..(if ctx.thorough { 12 } else { 4 }) {
+    for k in 0..(if ctx.thorough { 18 } else { 6 }) {
         if !out.mine() {
             out.skip();
             continue;
         }
-        let seed = r.bytes(32);
+        // scenarios 4 and 5 use a seed whose hex form consists of decimal digits only (YAML types it
+        // as a number): the loader's type-error / conversion paths must not echo it
+        let digit_seed = k % 6 >= 4;
+        let seed: Vec<u8> = if digit_seed { (0..32).map(|_| (r.below(10) * 16 + r.below(10)) as u8).collect() } else { r.bytes(32) };
         let pats = secret_patterns(&seed);
         let mut cfg = ProcCfg::basic(seed.clone(), 2);
         cfg.env_source = k % 2 == 1;
         cfg.client_stats = k % 3 == 0;
         cfg.status = Some(1);
         cfg.fault = Some(if k % 2 == 0 { 0 } else { 25 });
-        let scenario = ["serve", "bad-batch", "bad-port-in-use", "serve"][k % 4];
+        let scenario = ["serve", "bad-batch", "bad-port-in-use", "serve", "digit-seed-serve", "digit-seed-bad-batch"][k % 6];
+        if digit_seed { cfg.env_source = false; }
         let mut text = String::new();
         match scenario {
-            "bad-batch" => {
+            "bad-batch" | "digit-seed-bad-batch" => {
                 // configuration error path: the server prints the error and exits 1
                 let mut c = cfg.clone();
                 c.batch = Some(200);
